@@ -28,7 +28,7 @@ void Net::close(const StreamPtr& s) {
     if (s->write_parked) { auto h = std::move(s->write_h); s->write_parked = false; post_handler(*this, s->ex, std::move(h), error_code(asio::error::operation_aborted), size_t(0)); s->write_w.reset(); }
     if (s->shutdown_parked) complete_shutdown(s, asio::error::operation_aborted);
     if (s->conn >= 0 && !conns[s->conn].client_closed) { conns[s->conn].client_closed = true; if (broker) broker->on_client_close(s->conn); }
-    if (s->open || s->connected) note("close stream " + std::to_string(s->id));
+    if (s->open || s->connected) { note("close stream " + std::to_string(s->id)); if (s->closed_ns < 0) s->closed_ns = vclock::now_ns(); }
     s->open = false; s->connected = false;
 }
 
@@ -49,6 +49,8 @@ void Net::park_connect(const StreamPtr& s, const tcp::endpoint& ep, Handler0 h) 
     if (slot.is_connected()) { std::weak_ptr<StreamState> w = s; slot.assign([w](asio::cancellation_type_t) { if (auto p = w.lock()) if (g_net) g_net->cancel_op(p, OP_CONNECT); }); }
     s->connect_h = std::move(h);
     int par = parallel_connects(); if (par > max_parallel_connects) max_parallel_connects = par;
+    int att = attempts_in_progress(); if (att > max_attempts_in_progress) max_attempts_in_progress = att;
+    s->connect_seq = ++op_seq;
     note("connect start stream " + std::to_string(s->id) + " -> " + ep.address().to_string() + ":" + std::to_string(ep.port()));
 }
 
@@ -59,13 +61,14 @@ void Net::park_read(const StreamPtr& s, char* p, size_t cap, HandlerRW h) {
     auto slot = asio::get_associated_cancellation_slot(h);
     if (slot.is_connected()) { std::weak_ptr<StreamState> w = s; slot.assign([w](asio::cancellation_type_t) { if (auto q = w.lock()) if (g_net) g_net->cancel_op(q, OP_READ); }); }
     s->read_h = std::move(h);
+    if (s->conn >= 0 && conns[s->conn].first_read_start_ns < 0) conns[s->conn].first_read_start_ns = vclock::now_ns();
     if (s->shut) complete_read(s, asio::error::eof, 0);
 }
 
 void Net::park_write(const StreamPtr& s, std::string data, HandlerRW h) {
     if (stop_marker) writes_started_after_stop++;
     if (!s->open || !s->connected) { post_handler(*this, s->ex, std::move(h), error_code(s->open ? asio::error::not_connected : asio::error::bad_descriptor), size_t(0)); return; }
-    if (!(s->lw_written > 0 && s->lw_written < s->lw_data.size() && s->lw_data.compare(s->lw_written, std::string::npos, data) == 0)) { s->lw_data = data; s->lw_written = 0; }
+    if (!(s->lw_written > 0 && s->lw_written < s->lw_data.size() && s->lw_data.compare(s->lw_written, std::string::npos, data) == 0)) { s->lw_data = data; s->lw_written = 0; s->lw_start_ns = vclock::now_ns(); s->lw_seq_start = ++op_seq; }
     s->write_parked = true; s->write_data = std::move(data); s->write_delivered = false; s->write_w.emplace(asio::make_work_guard(s->ex));
     auto slot = asio::get_associated_cancellation_slot(h);
     if (slot.is_connected()) { std::weak_ptr<StreamState> w = s; slot.assign([w](asio::cancellation_type_t) { if (auto q = w.lock()) if (g_net) g_net->cancel_op(q, OP_WRITE); }); }
@@ -90,7 +93,8 @@ void Net::complete_connect(const StreamPtr& s, error_code ec) {
         conns.push_back(c); s->conn = c.id;
         note("connect ok stream " + std::to_string(s->id) + " conn " + std::to_string(c.id));
         if (broker) broker->on_open(c.id);
-    } else note("connect fail stream " + std::to_string(s->id) + " " + ec.message());
+    } else { note("connect fail stream " + std::to_string(s->id) + " " + ec.message()); s->connect_failed = true; }
+    s->connect_done_ns = vclock::now_ns();
     post_handler(*this, s->ex, std::move(h), ec);
     s->connect_w.reset();
 }
@@ -101,8 +105,9 @@ void Net::complete_read(const StreamPtr& s, error_code ec, size_t n) {
     size_t got = 0;
     if (n > 0 && s->conn >= 0) {
         Conn& c = conns[s->conn]; got = std::min(n, std::min(s->read_cap, c.b2c.size()));
-        memcpy(s->read_ptr, c.b2c.data(), got); c.b2c.erase(0, got); c.bytes_b2c_read += got;
+        memcpy(s->read_ptr, c.b2c.data(), got); c.b2c.erase(0, got); c.bytes_b2c_read += got; c.last_read_ns = vclock::now_ns(); c.read_marks.emplace_back(c.bytes_b2c_read, c.last_read_ns);
     }
+    if (ec && ec != asio::error::operation_aborted && s->first_error_ns < 0) s->first_error_ns = vclock::now_ns();
     post_handler(*this, s->ex, std::move(h), ec, got);
     s->read_w.reset();
 }
@@ -122,8 +127,9 @@ void Net::complete_write(const StreamPtr& s, error_code ec, size_t n) {
     auto h = std::move(s->write_h); s->write_parked = false;
     // log logical writes: a short successful write is continued by asio::async_write with the remaining bytes
     if (!ec && s->lw_written + n < s->lw_data.size()) s->lw_written += n;
-    else { wlog.push_back({s->conn, s->id, s->lw_data, !ec, s->lw_written + (ec ? 0 : n), vclock::now_ns(), wire_size ? wire_size() : 0}); s->lw_data.clear(); s->lw_written = 0; }
+    else { wlog.push_back({s->conn, s->id, s->lw_data, !ec, s->lw_written + (ec ? 0 : n), vclock::now_ns(), wire_size ? wire_size() : 0, s->lw_start_ns, s->lw_seq_start}); s->lw_data.clear(); s->lw_written = 0; }
     s->write_data.clear();
+    if (ec && ec != asio::error::operation_aborted && s->first_error_ns < 0) s->first_error_ns = vclock::now_ns();
     post_handler(*this, s->ex, std::move(h), ec, n);
     s->write_w.reset();
 }
@@ -144,7 +150,7 @@ void Net::kill_conn(int conn, error_code ec) {
 void Net::cancel_op(const StreamPtr& s, OpKind k) {
     switch (k) {
         case OP_CONNECT: complete_connect(s, asio::error::operation_aborted); break;
-        case OP_READ: complete_read(s, asio::error::operation_aborted, 0); break;
+        case OP_READ: if (s->read_parked && s->read_cancelled_ns < 0) s->read_cancelled_ns = vclock::now_ns(); complete_read(s, asio::error::operation_aborted, 0); break;
         case OP_WRITE: complete_write(s, asio::error::operation_aborted, 0); break;
         case OP_SHUTDOWN: complete_shutdown(s, asio::error::operation_aborted); break;
     }
@@ -156,6 +162,14 @@ int Net::parked_count() const {
 int Net::parallel_connects() const {
     // a connection attempt is in progress from async_connect until the stream either failed or is closed
     int n = 0; for (auto& s : streams) if (s->connect_parked) n++; return n;
+}
+
+int Net::attempts_in_progress() const {
+    int n = 0;
+    for (auto& s : streams) { if (s->destroyed || s->closed_ns >= 0) continue;
+        if (s->connect_parked) { n++; continue; }
+        if (s->connected && s->conn >= 0 && broker && !broker->handshake_done(s->conn) && !conns[s->conn].dead && !conns[s->conn].broker_closed && !s->shut) n++; }
+    return n;
 }
 
 } // namespace sim
